@@ -280,7 +280,7 @@ def acquire_before_release(prog, chk, rid, fams=tuple(FAMILIES), floor=5):
             rels += [i for i in q.calls(f) if f.nodes[i].get("callee", "").endswith("::clear") and
                      (q.call_object(f, i) is None or f.nodes[q.call_object(f, i)]["k"] == "CXXThisExpr")]
             bad = [(r, i) for r in rels for i, _x in incs if q.reaches(f, r, i)]
-            guard = any(re.search(r"&\w+ (!=|==) this|this (!=|==) &\w+", q.no_casts(f.r(b["cond"]))) for b in f.blocks.values() if b.get("cond") is not None)
+            guard = bool(f.params) and bool(fin.alias_guard_edges(f, f.params[0]["n"]))
             where = "%s:%s" % (f.file, f.line)
             if bad and not guard:
                 chk.bad(rid, f, "release-before-acquire", f.where(bad[0][0]),
@@ -478,12 +478,14 @@ def exclusive_guard(prog, chk, rid, fams=("String", "Variant", "Xml::Variant"), 
                 o = q.call_object(f, c)
                 if o is None:
                     continue
-                ot = q.no_casts(f.r(o)).strip("()")
+                ot = q.no_casts(q.xr(f, o, defs)).strip("()")
                 if ot not in ("this->data + 1", "*(this->data + 1"):
                     continue
                 on = f.nodes[f.strip(o)]
                 while on["k"] in ("ParenExpr", "ImplicitCastExpr") and on["c"]:
                     on = f.nodes[on["c"][0]]
+                if on["k"] == "DeclRefExpr" and on["ref"].get("dk") == "local" and q.single_def(f, on["ref"]["id"], defs) is not None:
+                    on = f.nodes[f.strip(q.single_def(f, on["ref"]["id"], defs))]      # `List* const current = (List*)(data + 1)`
                 ty = (on.get("t") or "").replace("const ", "").rstrip(" *")
                 if (on.get("t") or "").startswith("const "):
                     continue
